@@ -71,8 +71,8 @@ SPECS = {
     ),
     "C02": dict(
         title="glitch freedom",
-        streams=[("binds", 400, 40000, 40), ("basic", 150, 20000, 30), ("glitch", 300, 30000, 40), ("direct", 400, 40000, 0),
-                 ("rhsheights", 200, 20000, 0)],
+        streams=[("binds", 400, 13000, 40), ("basic", 150, 7000, 30), ("glitch", 300, 10000, 40), ("direct", 400, 13000, 0),
+                 ("rhsheights", 200, 7000, 0)],
         proj=dict(keep_ops=("stabilise",), keep_events=("inv", "foldcall", "bindrun", "rec")),
         oracle=O.oracle_glitch_free, profiles=("debug", "release"), dump=True,
         nontrivial=lambda src, ops: any(len([e for e in o.events if e.startswith("inv")]) >= 2 for o in ops),
@@ -80,7 +80,7 @@ SPECS = {
     ),
     "C03": dict(
         title="bind scopes",
-        streams=[("binds", 500, 40000, 40), ("exports", 400, 30000, 40), ("direct", 300, 30000, 0), ("rhsheights", 150, 15000, 0)],
+        streams=[("binds", 500, 16000, 40), ("exports", 400, 12000, 40), ("direct", 300, 12000, 0), ("rhsheights", 150, 6000, 0)],
         proj=dict(keep_ops=("stabilise", "read"), keep_events=("inv", "bindrun", "foldcall", "upd", "invalidate")),
         oracle=O.oracle_bind_scopes, profiles=("debug", "release"), dump=True,
         nontrivial=lambda src, ops: any("gen=" in e and "gen=0" not in e for o in ops for e in o.events if e.startswith("bindrun")),
@@ -88,8 +88,8 @@ SPECS = {
     ),
     "C04": dict(
         title="no panics on well-formed programs (both profiles)",
-        streams=[("basic", 700, 30000, 40), ("binds", 700, 30000, 40), ("drops", 700, 30000, 40), ("subs", 400, 20000, 40),
-                 ("vardrops", 500, 20000, 40)],
+        streams=[("basic", 700, 23000, 40), ("binds", 700, 23000, 40), ("drops", 700, 23000, 40), ("subs", 400, 15000, 40),
+                 ("vardrops", 500, 15000, 40)],
         proj=dict(keep_ops=None, keep_events=(), classes=True),
         oracle=O.oracle_no_panic, profiles=("debug", "release"), dump=False,
         nontrivial=lambda src, ops: sum(1 for l in src if l == "stabilise") >= 2,
@@ -153,8 +153,8 @@ SPECS = {
     ),
     "C11": dict(
         title="bookkeeping audit after every action",
-        streams=[("basic", 300, 20000, 40), ("binds", 300, 20000, 40), ("drops", 300, 20000, 40), ("subs", 250, 20000, 40),
-                 ("direct", 300, 20000, 0), ("rhsheights", 150, 15000, 0)],
+        streams=[("basic", 300, 13000, 40), ("binds", 300, 13000, 40), ("drops", 300, 13000, 40), ("subs", 250, 13000, 40),
+                 ("direct", 300, 13000, 0), ("rhsheights", 150, 10000, 0)],
         proj=dict(keep_ops=None, keep_events=("rec", "nec", "unnec", "invalidate"), dump=True, sort_events=False),
         oracle=O.oracle_audit, profiles=("debug",), dump=True,
         nontrivial=lambda src, ops: sum(1 for l in src if l == "stabilise") >= 2,
@@ -162,7 +162,7 @@ SPECS = {
     ),
     "C14": dict(
         title="expert nodes with dynamic dependencies",
-        streams=[("expert", 1500, 60000, 0)],
+        streams=[("expert", 1500, 46000, 0)],
         proj=dict(keep_ops=("stabilise", "read", "adddep"), keep_events=("edgecb", "exrun", "obschange", "inv", "invalidate"),
                   dump=True),
         oracle=O.oracle_expert, profiles=("debug", "release"), dump=True,
